@@ -53,6 +53,8 @@ public:
    Chunk *GetNext(const E_Scope scope = E_Scope::ALL) const;
    Chunk *GetPrev(const E_Scope scope = E_Scope::ALL) const;
    Chunk *GetNextNc(const E_Scope scope = E_Scope::ALL) const;
+   Chunk *GetPrevNc(const E_Scope scope = E_Scope::ALL) const;
+   Chunk *GetPpStart() const;
    Chunk *GetNextNcNnl(const E_Scope scope = E_Scope::ALL) const;
    Chunk *GetPrevNcNnl(const E_Scope scope = E_Scope::ALL) const;
    Chunk *GetPrevType(const E_Token type, int level = ANY_LEVEL, E_Scope scope = E_Scope::ALL) const;
